@@ -100,6 +100,8 @@ class World:
             self._load_defs(m)
         for m in self.modules.values():
             self._load_imports_and_consts(m)
+        _WORLD_SINGLETON[0] = self
+        self._load_module_objects()
         self.defines = parse_defines(self._raw_const("ctparse.rule", "_defines"))
         self.patterns = {}
         for k, v in self.consts["regex_str"].items():
@@ -288,6 +290,32 @@ class World:
         if name == "math":
             return ModVal("math", {"log": Builtin("log", _log), "exp": Builtin("exp", _exp)})
         return ModVal(name)
+
+    def _load_module_objects(self):
+        """module-level names bound to objects of repo classes (e.g. a shared Time constant):
+        evaluated from the real assignment; such objects pre-exist every call (never 'fresh')"""
+        from .interp import Interp, Frame
+        for m in self.modules.values():
+            for s in m.tree.body:
+                if not (isinstance(s, ast.Assign) and len(s.targets) == 1 and isinstance(s.targets[0], ast.Name)):
+                    continue
+                name = s.targets[0].id
+                if name in m.globals or not isinstance(s.value, ast.Call):
+                    continue
+                fn = s.value.func
+                if not (isinstance(fn, ast.Name) and isinstance(m.globals.get(fn.id), ClassVal)):
+                    continue
+                try:
+                    it = Interp(self)
+                    holder = FuncVal(ast.parse("def __module__(): pass").body[0], m, None, qualname=self.short(m.name))
+                    v = it.eval(s.value, Frame(holder))
+                except Exception:
+                    continue
+                if isinstance(v, Obj):
+                    v.fresh = False
+                    v.label = "module global %s.%s" % (self.short(m.name), name)
+                    v.is_module_global = True
+                    m.globals[name] = v
 
     # ------------------------------------------------------------ lookup helpers
     def pod_table(self):
